@@ -199,6 +199,12 @@ pub struct Job {
     pub beacon: u64,
     pub query: Vec<String>,
     pub depth: usize,
+    /// this job contributes samples to the evidence file
+    pub sample: bool,
+    /// depth-2 jobs are cut by first alteration: this job runs the honest answer and level 1 when
+    /// `chunk == 0`, and the second level below the first alterations `i` with `i % chunks == chunk`
+    pub chunk: usize,
+    pub chunks: usize,
 }
 
 fn other_blocks(chain: &Chain, n: u64) -> Vec<(String, u64, u64)> {
@@ -344,9 +350,10 @@ pub fn run_job(setup: &Setup, job: &Job) -> JobResult {
     let present: BTreeSet<Item> = honest.parts.iter().flat_map(|p| p.items.clone()).collect();
     let mut nbases = 0;
     for (bi, base) in bases.iter().enumerate() {
-        nbases += 1;
+        if job.chunk == 0 {
+            nbases += 1;
+        }
         let cx = QCtx {
-            fmt,
             cert_names: &cert_names,
             beacons: &beacons,
             foreign: Some(if bi == 1 { foreign_split.as_ref().unwrap() } else { &foreign }),
@@ -356,8 +363,9 @@ pub fn run_job(setup: &Setup, job: &Job) -> JobResult {
             range_keys: &range_keys,
         };
         // ---- completeness on the honest answer
-        rep.eval();
         let wire = base.resp.wire();
+        if job.chunk == 0 {
+        rep.eval();
         match client(&setup.worlds, fmt, &wire) {
             Verdict::Certified(r) => {
                 rep.outcome("honest:certified");
@@ -371,7 +379,7 @@ pub fn run_job(setup: &Setup, job: &Job) -> JobResult {
                         json!({"part": "sets", "format": fmt.name(), "labels": ["honest"], "wire": wire, "answer": base.resp.describe()}),
                     );
                 }
-                if rep.samples.is_empty() && job.query.len() == 3 && present.len() >= 2 {
+                if job.sample && bi == 0 && job.query.len() == 3 {
                     rep.sample(json!({"case": "honest answer", "format": fmt.name(), "query": job.query, "beacon": job.beacon, "answer": base.resp.describe(), "verdict": "certified"}));
                 }
             }
@@ -388,26 +396,31 @@ pub fn run_job(setup: &Setup, job: &Job) -> JobResult {
                 }
             }
         }
+        }
         // ---- the deviation ball
         let mut seen: HashSet<u64> = HashSet::new();
         seen.insert(hash64(&base.resp));
-        let mut violating_classes: BTreeSet<&'static str> = BTreeSet::new();
         let level1 = alterations(&base.resp, &cx);
-        let mut level1_bad: Vec<bool> = vec![];
+        let mut fresh1 = vec![];
         for a in &level1 {
-            let fresh = seen.insert(hash64(&a.resp));
-            let bad = if fresh { judge(setup, fmt, job, base.shape, &[a], &violating_classes, &mut rep) } else { false };
-            if bad {
-                violating_classes.insert(a.class);
+            fresh1.push(seen.insert(hash64(&a.resp)));
+        }
+        if job.chunk == 0 {
+            for (a, fresh) in level1.iter().zip(fresh1.iter()) {
+                if *fresh {
+                    judge(setup, fmt, job, base.shape, &[a], &mut rep);
+                }
             }
-            level1_bad.push(bad);
         }
         if job.depth >= 2 {
-            for (a, a_bad) in level1.iter().zip(level1_bad.iter()) {
-                let _ = a_bad;
+            for (ai, a) in level1.iter().enumerate() {
+                if ai % job.chunks != job.chunk || !fresh1[ai] {
+                    continue;
+                }
                 for b in alterations(&a.resp, &cx) {
+                    // answers already met at level 1, or earlier in this chunk, are not run again
                     if seen.insert(hash64(&b.resp)) {
-                        judge(setup, fmt, job, base.shape, &[a, &b], &violating_classes, &mut rep);
+                        judge(setup, fmt, job, base.shape, &[a, &b], &mut rep);
                     }
                 }
             }
@@ -423,7 +436,6 @@ fn judge(
     job: &Job,
     shape: &str,
     path: &[&Alt],
-    violating_classes: &BTreeSet<&'static str>,
     rep: &mut Report,
 ) -> bool {
     let resp = &path.last().unwrap().resp;
@@ -445,27 +457,29 @@ fn judge(
             if bad.is_empty() {
                 rep.outcome("certified:true-statement");
                 rep.add_extra(&format!("altered_answers_certified_truthfully[{}]", path.iter().map(|a| a.class).collect::<Vec<_>>().join("+")), 1);
-                if rep.samples.len() < 3 && path.len() == 1 && path[0].class == "item-dropped" {
+                if job.sample && job.query.len() == 1 && path.len() == 1 && path[0].class == "item-duplicated" {
                     rep.sample(json!({"case": "altered answer that still states only true things", "format": fmt.name(), "alteration": path[0].label, "verdict": "certified"}));
                 }
                 return false;
             }
             rep.outcome("certified:FALSE-statement");
             let classes: Vec<&'static str> = path.iter().map(|a| a.class).collect();
-            // attribute to a single class when one of the steps already violates on its own
-            let single: Option<&'static str> =
-                if classes.len() == 1 { Some(classes[0]) } else { classes.iter().copied().find(|c| violating_classes.contains(c)) };
             let clause = bad[0].0;
-            let key = match single {
-                Some("chars-moved-between-leaf-and-neighbour-node") if clause == "uncertified-item-reported" => KEY_LEAF_NEIGHBOUR.to_string(),
-                Some(c) => format!("C11/{}:{}:{}", fmt.name(), clause, c),
-                None => {
-                    let mut cs = classes.clone();
-                    cs.sort();
-                    cs.dedup();
-                    format!("C11/{}:{}:{}", fmt.name(), clause, cs.join("+"))
-                }
+            const LEAF: &str = "chars-moved-between-leaf-and-neighbour-node";
+            let key = if classes.contains(&LEAF) && bad.iter().all(|b| b.0 == "uncertified-item-reported") {
+                // the only false statement is an item whose leaf borrows from / lends to a neighbour node
+                KEY_LEAF_NEIGHBOUR.to_string()
+            } else {
+                let mut cs = classes.clone();
+                cs.sort();
+                cs.dedup();
+                format!("C11/{}:{}:{}", fmt.name(), clause, cs.join("+"))
             };
+            rep.add_extra(&format!("false_statements_certified[{}|{}]", fmt.name(), key), 1);
+            if job.sample && job.query.len() == 1 && rep.samples.len() < 2 && path.len() == 1 {
+                rep.sample(json!({"case": "altered answer reported as certified", "format": fmt.name(), "alteration": path[0].label,
+                                  "reported": r.items.iter().map(|i| i.short()).collect::<Vec<_>>(), "key": key}));
+            }
             rep.violation(
                 &key,
                 format!(
@@ -477,7 +491,7 @@ fn judge(
                     r.cert,
                     bad.iter().map(|b| b.1.clone()).collect::<Vec<_>>().join("; ")
                 ),
-                json!({"part": "sets", "format": fmt.name(), "labels": path.iter().map(|a| a.label.clone()).collect::<Vec<_>>(),
+                json!({"part": "sets", "key": key, "format": fmt.name(), "labels": path.iter().map(|a| a.label.clone()).collect::<Vec<_>>(),
                        "classes": classes, "wire": wire, "answer": resp.describe()}),
             );
             true
